@@ -1,5 +1,5 @@
 CONSTANTS
-  Base = 240
+  Base = 280
   MaxHeight = 100000
   EnvVars <- TrEnv
   QueryKinds <- TrQueries
